@@ -170,6 +170,20 @@ def make_kernel_cross(name):
             if not (np.array_equal(S, S0) and np.array_equal(f, f0) and np.array_equal(fcs, fcs0)):
                 cl.fail(f"hvsrpy.smoothing.{name}", "inputs modified (frame: modifies nothing)", signature=name + ":frame")
                 return
+            if j % 4 == 2:
+                # a sample that lies in no window has weight zero in every average: whatever it holds - a NaN or an infinity in the 0 Hz bin, say - stays out of the result
+                used = np.zeros(f.size, dtype=bool)
+                for fc in fcs:
+                    if fc >= EPS:
+                        used |= support_weight(name, f, fc, b)[0]
+                if (~used).any():
+                    Sx = S.copy()
+                    Sx[:, ~used] = [np.nan, np.inf, -np.inf][(j // 4) % 3]
+                    got_x, err = _call(fn, f, Sx, fcs, b)
+                    if err or not close(got_x, want):
+                        cl.fail(f"hvsrpy.smoothing.{name}", err or "a non-finite value in a sample outside every window reaches the result (samples outside the window must not contribute)",
+                                frequencies=f, spectrum=Sx, fcs=fcs, bandwidth=b, observed=got_x, required=want, signature=name + ":outside-nonfinite")
+                        return
             if j % 5 == 0:
                 # the numbers decide, not their dtype: integer-valued and single-precision spectra give the weighted average of those numbers
                 for Sx in (np.round(np.abs(S) * 50 + 1).astype(np.int64), S.astype(np.float32)):
